@@ -242,6 +242,9 @@ def d5(ctx, F):
                 vs = sorted({rv["variant"] for i2, j2, pl2, rv, s2 in K.aggregates(r, "selium_std::errors::SeliumError", arm)})
                 if vs == ["RequestTimeout"]:
                     ok = True
+    # .. and the reconnecting wrapper hands that error to the caller: RequestTimeout is not among the errors it retries on
+    from . import c12 as _c12
+    _c12.classification_only(ctx, F)
     ctx.check(ok, "C04.D5.timeout-error", "request:elapsed-not-timeout-error", "an elapsed timeout is reported as SeliumError::RequestTimeout", (me or to)[0].span)
 
 
